@@ -12,17 +12,18 @@ import (
 func init() {
 	register("C16", "Decides structural necessary conditions of 'a scan delivers every entry of its range exactly once' (compositional: channel delivery is the axiom, each premise is a shape of the code): "+
 		"(R1) the range generator emits consecutive, abutting, non-empty ranges: next covers the indices start … start + min(end − start, batch) − 1 (its end field is that last index + δ for one constant δ, the same δ the worker takes off again — inclusive and half-open ranges are both decided), the following start is this start + the batch length, the first start is StartIndex, the loop stops only when start ≥ end and not continuous, the STH is refreshed only when start = end, the send can always be abandoned on context end, the channel is closed by its producer; "+
-		"(R2) a worker works off the range it received from the ranges channel: it requests exactly the indices from its cursor r.start up to the last index of the range (r.end − δ), labels the delivered batch with the start it requested, advances that same cursor by the number of entries delivered, requests again exactly while the cursor has not passed that last index (decided for every state the loop test can tell apart, and for cursor = last / last + 1), and on a failed request neither delivers nor advances; "+
+		"(R2) a worker works off the range it received from the ranges channel: it requests up to the last index of the range (r.end − δ) and requests again exactly while its cursor has not passed that last index (decided for every state the loop test can tell apart, and for cursor = last / last + 1), a failed request is tried again for the same range; and what reaches the callback is every index of the range once, under its own label, with the entries of the response that was asked for it — decided by walking the worker (every path from the receive of a range to the request loop, every path through one round of it, every way out; a request has two outcomes), with a ghost counter \"first index not delivered\" that every batch handed to the callback advances, under the strongest linear equalities that the start of a range and all rounds keep between the loop-carried integers, the lengths of the loop-carried slices and that counter (affine hull; tests that came out \"=\" restrict the states a path applies to): a batch is labelled with the first index not delivered; every chunk of a batch lies at the index its request asked for and is the response of a request that succeeded; what a round keeps for a later batch lies at consecutive indices from the first index not delivered, is empty when a range is taken up, and is not collected on the backing array of a batch already handed over; the loop is left for the next range only when the first index not delivered has passed the last index; every kind of round (failed request, …) keeps the equalities the fetching rounds keep — whether responses are handed over one by one or collected, under whichever cursor and label variables; "+
 		"(R3) single producer / single consumer structure: only the generator sends ranges, only workers invoke the callback, ScanLog's entry channel is fed only by its flatten callback and closed after the fetcher returns; "+
 		"(R4) indices are derived as batch.Start + i at all three consumers (scanner flatten, migrillian submitter, client.GetEntries); "+
 		"(R5) the scanner calls at most one of the two callbacks per entry, exactly when the matcher selected it (and, for certificates, not in precert-only mode); "+
 		"(R6) Fetcher.cancel is guarded by its mutex and the scanner's counters are touched only through sync/atomic once goroutines run; Prepare clamps EndIndex to the tree size. "+
-		"NOT covered: schedules as such, termination/liveness, servers returning more entries than asked, behaviour of backoff.Retry.",
+		"NOT covered: schedules as such, termination/liveness (a worker that drops what it collected and fetches it again on every failure is accepted), what happens to entries already fetched when the context is cancelled (they may or may not be handed over), servers returning more entries than asked, behaviour of backoff.Retry, a worker that hands the callback on to another function or delivers from a function literal (undecided ⇒ fails).",
 		runC16)
 }
 
 func runC16(r *Run) {
 	r.Assume("Go channels deliver each sent value to exactly one receiver; backoff.Retry returns nil only after its function returned nil")
+	r.Assume("the worker's delivery accounting treats the function literal handed to backoff.Retry as run to its last call: when Retry returns nil the response variable holds the response of a request that succeeded, otherwise it holds nothing the log returned for the indices asked; a successful response holds entries for consecutive indices from the first index requested; locals of the worker whose address is not passed on are changed only by the worker's own stores")
 	r.D.PhiByName = true
 	defer func() { r.D.PhiByName = false }()
 
@@ -390,72 +391,36 @@ func sendsOn(fn *ssa.Function, chanType string) []ssa.Instruction {
 }
 
 func c16Worker(r *Run, fn *ssa.Function) {
-	clo := r.Fn("(*scanner.Fetcher).runWorker$1")
-	if clo == nil {
+	// the one get-entries request of the worker: made by the worker function itself or by a
+	// function literal of it (the one it hands to the retry helper)
+	var reqs []ssa.CallInstruction
+	for _, f := range append([]*ssa.Function{fn}, fn.AnonFuncs...) {
+		reqs = append(reqs, CallsTo(f, "iface(scanner.LogClient).GetRawEntries")...)
+	}
+	_, cbs := c16Callbacks(r, fn)
+	if !r.Check("runWorker:request", len(reqs) == 1, r.FnPos(fn), fmt.Sprintf("expected exactly one call of iface(scanner.LogClient).GetRawEntries in %s, found %d", FuncName(fn), len(reqs))) || len(cbs) == 0 {
+		r.Fail("runWorker:callback", r.FnPos(fn), fmt.Sprintf("undecided: %d get-entries requests, %d callback invocations", len(reqs), len(cbs)))
 		return
 	}
-	req := r.OneCall(clo, "runWorker:request", "iface(scanner.LogClient).GetRawEntries")
-	cb := CallsTo(fn, "dyn(p3)")
-	if req == nil || len(cb) != 1 {
-		r.Fail("runWorker:callback", r.FnPos(fn), fmt.Sprintf("undecided: %d callback invocations", len(cb)))
-		return
-	}
-	strip := func(s string) string { return strings.ReplaceAll(s, "^", "") }
-	reqStart := strip(r.D.D(CallArgs(req)[2]))
-	// callback argument
-	batch := CallArgs(cb[0])[0]
-	a := baseAlloc(batch)
-	if a == nil {
-		r.Fail("runWorker:batch", r.Where(cb[0]), "undecided: the batch handed to the callback is not built locally")
-		return
-	}
-	name := r.D.allocName(a)
-	var startVal, entriesVal ssa.Value
-	for _, st := range r.StoresTo(fn, "&("+name+".Start)") {
-		startVal = st.Val
-	}
-	for _, st := range r.StoresTo(fn, "&("+name+".Entries)") {
-		entriesVal = st.Val
-	}
-	if startVal == nil || entriesVal == nil {
-		r.Fail("runWorker:batch.fields", r.Where(cb[0]), "undecided: Start / Entries of the delivered batch not set")
-		return
-	}
-	r.Check("runWorker:batch.Start=requested-start", r.D.D(startVal) == reqStart, r.Where(cb[0]), fmt.Sprintf("batch is labelled Start=%s; the request that produced it started at %s", r.D.D(startVal), reqStart))
-	// entries come from the response the request stored
-	respStores := 0
-	var respAlloc string
-	eachInstr(clo, func(in ssa.Instruction) {
-		if st, ok := in.(*ssa.Store); ok && glob("iface(scanner.LogClient).GetRawEntries(*)#0", r.D.D(st.Val)) {
-			respStores++
-			respAlloc = strip(r.D.D(st.Addr))
-		}
-	})
-	r.Check("runWorker:batch.Entries=response", respStores == 1 && r.D.D(entriesVal) == "*"+respAlloc+".Entries", r.Where(cb[0]), "batch Entries ← "+r.D.D(entriesVal)+" (the response of that request)")
-	// cursor advance: requested-start variable += len(delivered entries)
-	adv := 0
-	eachInstr(fn, func(in ssa.Instruction) {
-		st, ok := in.(*ssa.Store)
-		if !ok || "&("+reqStart+")" != r.D.D(st.Addr) {
-			return
-		}
-		adv++
-		got := r.D.Lin(st.Val, nil).String()
-		want := lin2("+"+reqStart, "+len("+r.D.D(entriesVal)+")")
-		r.Check("runWorker:advance", got == want, r.Where(st), "cursor ← "+got+" (must be cursor + len(delivered entries): "+want+")")
-		r.Check("runWorker:advance-after-delivery", cb[0].Block() == st.Block() || cb[0].Block().Dominates(st.Block()), r.Where(st), "the cursor advances only after the batch was delivered")
-	})
-	r.Check("runWorker:advance.once", adv == 1, r.FnPos(fn), fmt.Sprintf("%d stores advance the requested-start cursor %s", adv, reqStart))
+	req := reqs[0]
 	// the request ends at, and the inner loop runs up to, the last index of the range the
 	// generator emitted — whichever index the range's end field stands for (rules_t6c16.go)
-	c16WorkerEndChecks(r, fn, req, cb[0])
-	// failed request: neither delivered nor advanced
-	r.MustGuardAfter(fn, "runWorker:failed-request-not-delivered", "nil?(*backoff.Backoff).Retry(*)", "non", []ssa.Instruction{cb[0]}, "callback")
-	if retry := r.OneCall(fn, "runWorker:retry", "(*backoff.Backoff).Retry"); retry != nil {
-		r.ExpectArg(retry, "runWorker:retry.fn", 2, "closure:(*scanner.Fetcher).runWorker$1")
+	c16WorkerEndChecks(r, fn, req)
+	// what reaches the callback: every index of the range once, under its own label, with the
+	// bytes of the response that was asked for it — however the worker collects, labels and
+	// hands over (rules_t8c16.go)
+	if cv := c16Convention(r); cv.q != nil && cv.reqWhy == "" {
+		c16Account(r, fn, cv.q, req)
+	} else {
+		r.Fail("runWorker:accounting", r.FnPos(fn), "undecided: "+cv.reqWhy)
 	}
-	for _, ret := range Returns(clo) {
-		r.Check("runWorker:request-error-returned", glob("iface(scanner.LogClient).GetRawEntries(*)#1", r.D.D(ret.Results[0])), r.Where(ret), "the retry closure returns the request's error")
+	if clo := req.Parent(); clo != fn {
+		if retry := r.OneCall(fn, "runWorker:retry", "(*backoff.Backoff).Retry"); retry != nil {
+			r.ExpectArg(retry, "runWorker:retry.fn", 2, "closure:"+FuncName(clo))
+		}
+		for _, ret := range Returns(clo) {
+			r.Check("runWorker:request-error-returned", glob("iface(scanner.LogClient).GetRawEntries(*)#1", r.D.D(ret.Results[0])), r.Where(ret), "the retry closure returns the request's error")
+		}
 	}
 }
 
